@@ -9,6 +9,7 @@ import NLV.Driver.RunProc
 import NLV.Driver.Trace
 import NLV.Driver.Relay
 import NLV.Driver.Traceback
+import NLV.Driver.Bdb
 
 def main (args : List String) : IO UInt32 := do
   match args with
@@ -23,4 +24,5 @@ def main (args : List String) : IO UInt32 := do
   | ["trace"] => NLV.Driver.Trace.main; return 0
   | ["relay"] => NLV.Driver.Relay.main; return 0
   | ["tb"] => NLV.Driver.Tb.main; return 0
+  | ["bdb"] => NLV.Driver.Bdb.main; return 0
   | _ => IO.eprintln "usage: nlvmodel <model>"; return 2
